@@ -100,8 +100,8 @@ pub fn spec() -> PropSpec {
             Family { name: "group-c02-fair", f: fam_fair, weight: 25 },
             Family { name: "group-c02-cc", f: fam_cc, weight: 15 },
         ],
-        quick_worlds: 12_000,
-        thorough_worlds: 200_000,
+        quick_worlds: 20_000,
+        thorough_worlds: 400_000,
         panic_is_violation: false,
         rule: "each evaluation = a group of 4 executions of one choice list (plain, replay, all instants shifted by 1 ns / 1 s / 49.7 days, extra harmless calls) whose full output traces (every Transmit (t, size, segment size, destination, ECN), every Event and EndpointEvent, every application-call result) must be identical; non-trivial = a fault fired or >1 connection; distinct = distinct abstract-event signature of the plain run",
         assumptions: vec!["ciphertext bytes are excluded from traces (rustls/ring draw their own randomness); sizes, times, plaintext-derived events are included", "a second OS process (different ASLR / RandomState keys) is compared through the digests printed by `vsim selftest` (bin/selftest-xproc)"],
